@@ -2,6 +2,12 @@
   Edn.Proofs.Complete — C03: every rendering of a value (Edn.Spec.Renders: all token
   spellings it lists, any blank/comment/discard trivia between forms, nesting within the
   reader's limit) is accepted, and the tree returned has exactly the rendered content.
+
+  The token-level cases come from `CompleteIdent`, `CompleteNum`, `CompleteStrChar`; the
+  structural cases (collections, tagged elements, discards, trivia) are proved in
+  `CompleteAux1` (content versus structural equality and the duplicate check),
+  `CompleteAux2` (dispatch on delimiters, the element loops) and `CompleteAux3` (one lemma
+  per structural constructor of the rendering relation).
 -/
 import Edn.Spec.Renders
 import Edn.Proofs.CompleteIdent
@@ -9,31 +15,84 @@ import Edn.Proofs.CompleteNum
 import Edn.Proofs.CompleteStrChar
 import Edn.Proofs.Trivia
 import Edn.Proofs.ReaderInv
+import Edn.Proofs.CompleteAux3
 
 namespace Edn.Proofs
 open Edn.Model Edn.Spec Edn.Generated
 
 /-- structural equality looks at content only -/
-theorem Eqv_strip (cfg : Cfg) (a b : Val) : Eqv cfg (strip a) (strip b) ↔ Eqv cfg a b := by
-  sorry
+theorem Eqv_strip (cfg : Cfg) (a b : Val) : Eqv cfg (strip a) (strip b) ↔ Eqv cfg a b :=
+  Cmpl.Eqv_strip_iff cfg a b
 
 /-- blanks in front of a form -/
 theorem reads_blank (cfg : Cfg) (opts : Opts) (d : Nat) (a : Val) (tr s : Bytes) (ht : Blank tr)
-    (h : Reads cfg opts d a s) : Reads cfg opts d a (tr ++ s) := by
-  sorry
+    (h : Reads cfg opts d a s) : Reads cfg opts d a (tr ++ s) :=
+  Cmpl.reads_blank_aux cfg opts d a tr s ht h
+
+mutual
+/-- forms -/
+theorem complete_v (cfg : Cfg) (opts : Opts) (hreg : opts.registry = none) :
+    ∀ {k : Nat} {a : Val} {s : Bytes}, Renders cfg k a s →
+      ∀ d, d + k ≤ Tables.maxNestingDepth → Reads cfg opts d a s
+  | _, _, _, .nil _, d, _ => reads_nil cfg opts d
+  | _, _, _, .true_ _, d, _ => reads_true cfg opts d
+  | _, _, _, .false_ _, d, _ => reads_false cfg opts d
+  | _, _, _, .int _ sg ds neg hs hd hr, d, _ => reads_int cfg opts d sg ds neg hs hd hr
+  | _, _, _, .bigOverflow _ sg ds neg hs hd hr, d, _ => reads_bigOverflow cfg opts d sg ds neg hs hd hr
+  | _, _, _, .bigN _ sg ds neg hs hd, d, _ => reads_bigN cfg opts d sg ds neg hs hd
+  | _, _, _, .str _ sp dn h hne, d, _ => reads_str cfg opts d sp dn h hne
+  | _, _, _, .char _ body cp h hcp, d, _ => reads_char cfg opts d body cp h hcp
+  | _, _, _, .kw _ tok ns nm h hc hsp hne hsl, d, _ => reads_kw cfg opts d tok ns nm h hc hsp hne hsl
+  | _, _, _, .sym _ tok ns nm h hc hsp hres, d, _ => reads_sym cfg opts d tok ns nm h hc hsp hres
+  | _, _, _, .list k xs body h, d, hd =>
+    Cmpl.case_list cfg opts d xs body (by omega) (complete_s cfg opts hreg h d (by omega))
+  | _, _, _, .vec k xs body h, d, hd =>
+    Cmpl.case_vec cfg opts d xs body (by omega) (complete_s cfg opts hreg h d (by omega))
+  | _, _, _, .set k xs body h hpd, d, hd =>
+    Cmpl.case_set cfg opts hreg d xs body (by omega) (complete_s cfg opts hreg h d (by omega)) hpd
+  | _, _, _, .map k ks vs body h hl hpd, d, hd =>
+    Cmpl.case_map cfg opts hreg d ks vs body (by omega) (complete_s cfg opts hreg h d (by omega)) hl hpd
+  | _, _, _, .tagged k tag ns nm a sep s ht hc hsp hres hu hsep hsne h, d, hd =>
+    Cmpl.case_tagged cfg opts hreg d tag a sep s (by omega) ht hc hu
+      (fun c rest cl hdl => by
+        obtain ⟨hh, e⟩ := readIdentifier_tag { cfg := cfg, opts := opts } tag ns nm c rest cl ht hc hsp hres hdl
+        exact ⟨hh, ns, nm, e⟩)
+      hsep hsne (complete_v cfg opts hreg h (d + 1) (by omega))
+  | _, _, _, .blank k a tr s ht h, d, hd =>
+    reads_blank cfg opts d a tr s ht (complete_v cfg opts hreg h d hd)
+  | _, _, _, .discard k a b sd sep s hdisc hsep hsne h, d, hd =>
+    Cmpl.case_discard cfg opts d a b sd sep s (by omega)
+      (complete_v cfg opts hreg hdisc (d + 1) (by omega)) hsep hsne (complete_v cfg opts hreg h d hd)
+
+/-- collection bodies -/
+theorem complete_s (cfg : Cfg) (opts : Opts) (hreg : opts.registry = none) :
+    ∀ {k : Nat} {xs : List Val} {body : Bytes}, RendersSeq cfg k xs body →
+      ∀ d, d + 1 + k ≤ Tables.maxNestingDepth → Cmpl.SeqGoal cfg opts d xs body
+  | _, _, _, .nil k tr ht, d, _ => Cmpl.seq_nil cfg opts d tr ht
+  | _, _, _, .last k a s tr h ht, d, hd =>
+    Cmpl.seq_last cfg opts d a s tr (complete_v cfg opts hreg h (d + 1) (by omega)) ht
+  | _, _, _, .cons k a xs s sep body h hsep hsne _ hr, d, hd =>
+    Cmpl.seq_cons cfg opts d a xs s sep body (complete_v cfg opts hreg h (d + 1) (by omega)) hsep hsne
+      (complete_s cfg opts hreg hr d hd)
+end
 
 /-- the completeness theorem: renderings whose nesting fits the reader's limit are read as
     the value they render, at every depth that leaves room for that nesting, in every context -/
 theorem complete (cfg : Cfg) (opts : Opts) (hreg : opts.registry = none) :
     ∀ (k : Nat) (a : Val) (s : Bytes), Renders cfg k a s →
-      ∀ d, d + k ≤ Tables.maxNestingDepth → Reads cfg opts d a s := by
-  sorry
+      ∀ d, d + k ≤ Tables.maxNestingDepth → Reads cfg opts d a s :=
+  fun _ _ _ h d hd => complete_v cfg opts hreg h d hd
 
 /-- top level: `edn_read` on a rendering (followed by nothing, or by anything starting with a
     terminator) returns a tree with exactly the rendered content -/
 theorem read_rendering (cfg : Cfg) (opts : Opts) (hreg : opts.registry = none) (k : Nat) (a : Val) (s rest : Bytes)
     (h : Renders cfg k a s) (hk : k ≤ Tables.maxNestingDepth) (ht : TermStart rest) :
     ∃ v, (read cfg opts (s ++ rest)).out = .value v ∧ strip v = a := by
-  sorry
+  obtain ⟨v, hv, hs⟩ := complete cfg opts hreg k a s h 0 (by omega) false rest [] (readFuel (s ++ rest)) ht
+    (by simp only [readFuel, List.length_append]; omega)
+  refine ⟨v, ?_, hs⟩
+  unfold Edn.Model.read
+  simp only []
+  rw [hv]
 
 end Edn.Proofs
